@@ -576,3 +576,67 @@ Proof.
   exists tr_f9_vlog. eexists. eexists. split; [vm_compute; reflexivity|]. split; [vm_compute; reflexivity|].
   intro H. apply prefix_okb_spec in H. vm_compute in H. discriminate.
 Qed.
+
+(* ---- the sync events the protocol guard insists on ----
+   The C10 harness builds its traces with SyncFile / SyncDir events taken from the system calls
+   the process really made (strace).  A missing sync is a missing event, and these are the
+   places where the guard then rejects the trace: the acknowledgement (WAL msync), the release
+   of a flushed WAL (its table must be in the MANIFEST as of the last MANIFEST fsync), the next
+   change set (the previous one must be fsynced), a value pointer into the value log (the record
+   must be in the synced image). *)
+Lemma C10_guard_ack : forall c st st', sync_writes c = true ->
+  pstep c st PAck = Some st' -> log_synced (pfs st) (Wal (walcur st)) = true.
+Proof.
+  intros c st st' Hs H. cbn in H. rewrite Hs in H. cbn in H.
+  destruct (is_nil (todo st)); cbn in H; [|discriminate].
+  destruct (log_synced (pfs st) (Wal (walcur st))); [reflexivity|discriminate].
+Qed.
+
+Lemma C10_guard_wal_release : forall c st f st',
+  pstep c st (PE (Truncate0 (Wal f))) = Some st' \/ pstep c st (PE (Unlink (Wal f))) = Some st' ->
+  f <= nflushed_s st.
+Proof.
+  intros c st f st' [H|H]; cbn in H; destruct (f <=? nflushed_s st) eqn:E; cbn in H; try discriminate;
+    apply N.leb_le; exact E.
+Qed.
+
+Lemma C10_guard_changeset : forall c st cs st',
+  pstep c st (PE (Append Manifest (IM cs))) = Some st' -> synced (pfs st) Manifest = true.
+Proof.
+  intros c st cs st' H. cbn in H.
+  destruct (apply_changes (live st) cs); [|discriminate].
+  destruct (synced (pfs st) Manifest); [reflexivity|].
+  destruct (is_nil (deletes cs)).
+  - destruct cs as [|ch rest]; [discriminate|]. destruct ch as [id l|id]; [|discriminate].
+    destruct l; [|discriminate]. destruct rest; [|discriminate]. cbn in H. discriminate.
+  - cbn in H. discriminate.
+Qed.
+
+Theorem C10_sync_events_required : forall c st,
+  (forall st', sync_writes c = true -> pstep c st PAck = Some st' ->
+     log_synced (pfs st) (Wal (walcur st)) = true) /\
+  (forall f st', pstep c st (PE (Truncate0 (Wal f))) = Some st' \/ pstep c st (PE (Unlink (Wal f))) = Some st' ->
+     f <= nflushed_s st) /\
+  (forall cs st', pstep c st (PE (Append Manifest (IM cs))) = Some st' -> synced (pfs st) Manifest = true).
+Proof.
+  intros c st. split; [|split].
+  - intros st'. apply C10_guard_ack.
+  - intros f st'. apply C10_guard_wal_release.
+  - intros cs st'. apply C10_guard_changeset.
+Qed.
+
+(* the seeded change "fsync the MANIFEST only for change sets that delete tables": the trace the
+   harness reads off the system calls is rejected; with the fsync it is accepted and the
+   power-loss image keeps the acknowledged commit; the same file-system events applied without
+   the guard lose it (Open succeeds on a MANIFEST without the table, the WAL is gone) *)
+Lemma C10_missing_manifest_sync :
+  run (cfg_fixed true) (init (cfg_fixed true)) (tr_flush_release false) = None /\
+  match run (cfg_fixed true) (init (cfg_fixed true)) (tr_flush_release true) with
+  | Some st => match power_loss_result (cfg_fixed true) st with
+               | Some R => prefix_okb st R && Nat.eqb (acked st) 1 && Nat.eqb (length R) 1
+               | None => false end
+  | None => false
+  end = true /\
+  recover (cfg_fixed true)
+    (power_loss (apply_events (init_fs (cfg_fixed true)) (fs_events (tr_flush_release false)))) = Some [].
+Proof. repeat split; vm_compute; reflexivity. Qed.
